@@ -9,8 +9,8 @@ import (
 
 const scheduled = false
 
-func rtGo(f func()) { go f() }
-func rtYield()      { runtime.Gosched() }
+func rtGo(f func())    { go f() }
+func rtYield()         { runtime.Gosched() }
 func rtSpawn(f func()) { go f() }
 
 type rtJoiner = sync.WaitGroup
@@ -33,9 +33,9 @@ type execT struct {
 }
 type statsT struct {
 	Executions, Decisions, Nodes int64
-	MaxThreads, MaxDecisions int
-	BoundReached             int
-	Complete, Stopped        bool
+	MaxThreads, MaxDecisions     int
+	BoundReached                 int
+	Complete, Stopped            bool
 }
 
 func rtExplore(bound int, stop func() bool, mk func() func(), check func(x *execT, schedule []int) bool) statsT {
